@@ -21,9 +21,11 @@ type c07Cfg struct {
 
 var c07Cfgs = []c07Cfg{{"off", "none"}, {"500", "none"}, {"500", "100"}}
 
-func c07World(cfg c07Cfg) *vh.PoolWorld {
+func c07World(cfg c07Cfg) *vh.PoolWorld { return c07WorldOn(vh.Memory, cfg) }
+
+func c07WorldOn(driver string, cfg c07Cfg) *vh.PoolWorld {
 	vsched.ResetClock(0)
-	pc := vh.PoolConfig{Driver: vh.Memory}
+	pc := vh.PoolConfig{Driver: driver}
 	if cfg.min != "off" {
 		pc.WithdrawMin = big10(cfg.min)
 	}
@@ -181,8 +183,13 @@ func big10abs(s string) *big.Int {
 }
 
 // racing withdrawals of one wallet
-func c07Race(cfg c07Cfg, nthreads, bound int) vh.Unit {
+func c07Race(cfg c07Cfg, nthreads, bound int) vh.Unit { return c07RaceOn(vh.Memory, cfg, nthreads, bound) }
+
+func c07RaceOn(driver string, cfg c07Cfg, nthreads, bound int) vh.Unit {
 	name := fmt.Sprintf("payout-race/min%s-fee%s/x%d", cfg.min, cfg.fee, nthreads)
+	if driver != vh.Memory {
+		name = fmt.Sprintf("payout-race/%s/min%s-fee%s/x%d", driver, cfg.min, cfg.fee, nthreads)
+	}
 	cast := vh.StdCast()
 	var pw *vh.PoolWorld
 	res := make([]error, nthreads)
@@ -191,7 +198,7 @@ func c07Race(cfg c07Cfg, nthreads, bound int) vh.Unit {
 		fee = big10(cfg.fee)
 	}
 	body := func() {
-		pw = c07World(cfg)
+		pw = c07WorldOn(driver, cfg)
 		W := cast.ByName["W1"]
 		pw.Store.AddAccountBalance(store.Account(W.Wallet), big.NewInt(900))
 		pw.BStore.Deposits[store.Account(W.Wallet)] = big.NewInt(300)
@@ -208,7 +215,7 @@ func c07Race(cfg c07Cfg, nthreads, bound int) vh.Unit {
 	return vh.Unit{Name: name, Run: func(u *vh.U) {
 		vh.RunDFS(u, vh.DFSSpec{
 			Name: name, Bound: bound,
-			Run:  vsched.Options{YieldFiles: []string{"service.go", "memory.go"}},
+			Run:  vsched.Options{YieldFiles: []string{"service.go", "memory.go", "badger.go", "helpers.go"}},
 			Body: body,
 			Obs: func(s *vsched.Sched) string {
 				return fmt.Sprint(errs(res), len(pw.Settles))
@@ -232,6 +239,65 @@ func c07Race(cfg c07Cfg, nthreads, bound int) vh.Unit {
 				}
 				if ok == 0 {
 					return "payout-race/nobody-paid", fmt.Sprintf("config %+v: none of %d racing withdrawals succeeded: %v", cfg, nthreads, res)
+				}
+				return "", ""
+			},
+		})
+	}}
+}
+
+// a withdrawal while the wallet keeps earning: what is paid plus what stays on the ledger is what
+// was earned, and a second withdrawal pays exactly the rest
+func c07RaceAccrual(driver string, cfg c07Cfg, bound int) vh.Unit {
+	name := fmt.Sprintf("payout-vs-accrual/%s/min%s-fee%s", driver, cfg.min, cfg.fee)
+	cast := vh.StdCast()
+	var pw *vh.PoolWorld
+	var res [3]error
+	fee := new(big.Int)
+	if cfg.fee != "none" {
+		fee = big10(cfg.fee)
+	}
+	W, H := cast.ByName["W1"], cast.ByName["H1"]
+	body := func() {
+		pw = c07WorldOn(driver, cfg)
+		pw.Store.SetNode(store.Node{ID: store.NodeID(H.NodeID), Kind: "geth", IsHost: true, LastSeen: vsched.Now()})
+		pw.Store.AddAccountNode(store.Account(W.Wallet), store.NodeID(H.NodeID))
+		pw.Store.AddAccountBalance(store.Account(W.Wallet), big.NewInt(900))
+		pw.YieldPoints = true
+		vh.Par([]string{"withdraw", "earn-by-node", "earn-by-account"},
+			func() { res[0] = pw.Withdraw(W) },
+			func() { res[1] = pw.Store.AddNodeBalance(store.NodeID(H.NodeID), big.NewInt(500)) },
+			func() { res[2] = pw.Store.AddAccountBalance(store.Account(W.Wallet), big.NewInt(70)) })
+	}
+	return vh.Unit{Name: name, Run: func(u *vh.U) {
+		vh.RunDFS(u, vh.DFSSpec{
+			Name: name, Bound: bound,
+			Run:  vsched.Options{YieldFiles: []string{"service.go", "memory.go", "badger.go", "helpers.go"}, Delay: true},
+			Body: body,
+			Obs: func(s *vsched.Sched) string {
+				_, cre := c07Balance(pw, W.Wallet)
+				return fmt.Sprint(errs(res[:]), len(pw.Settles), cre)
+			},
+			Check: func(s *vsched.Sched) (string, string) {
+				for i, e := range res[1:] {
+					if e != nil {
+						return "payout-vs-accrual/" + driver + "/credit-failed", fmt.Sprintf("config %+v: accrual %d failed: %v", cfg, i, e)
+					}
+				}
+				paid := new(big.Int) // credit paid out = settled amount + fee (no deposit here)
+				for _, st := range pw.Settles {
+					if !st.Failed {
+						paid.Add(paid, big10abs(st.Amount))
+						paid.Add(paid, fee)
+					}
+				}
+				_, cre := c07Balance(pw, W.Wallet)
+				total := new(big.Int).Add(paid, cre)
+				if total.Cmp(big.NewInt(1470)) != 0 {
+					return "payout-vs-accrual/" + driver + "/earnings-not-conserved", fmt.Sprintf("config %+v: a wallet holding 900 withdrew (result %v) while earning 500+70: paid out %s (settlements %+v), ledger credit afterwards %s - together %s, earned 1470", cfg, res[0], paid, pw.Settles, cre, total)
+				}
+				if res[0] == nil && len(pw.Settles) != 1 {
+					return "payout-vs-accrual/" + driver + "/settle-count", fmt.Sprintf("config %+v: %d settlements for one withdrawal", cfg, len(pw.Settles))
 				}
 				return "", ""
 			},
@@ -263,6 +329,10 @@ func init() {
 					bound = 4
 				}
 				us = append(us, c07Race(cfg, 2, bound), c07Race(cfg, 3, bound-1))
+				us = append(us, c07RaceOn(vh.Badger, cfg, 2, bound-1))
+				for _, d := range vh.Drivers {
+					us = append(us, c07RaceAccrual(d, cfg, bound-1))
+				}
 			}
 			return us
 		},
